@@ -240,7 +240,7 @@ def monitor(case, out):
 
 # ----------------------------------------------------------------------------- running
 def run_impl(ctx, exe, case):
-    rc, out, err = ctx.run(exe, text="\n".join(case) + "\n", timeout=60, env={"ASAN_OPTIONS": "detect_leaks=0:exitcode=99"})
+    rc, out, err = ctx.run(exe, text="\n".join(case) + "\n", timeout=20, env={"ASAN_OPTIONS": "detect_leaks=0:exitcode=99"})
     return rc, out.splitlines(), err
 
 
@@ -284,7 +284,8 @@ def check_case(ctx, exe, case):
 def shrink(ctx, exe, case, sig):
     cur = list(case)
     i = 1
-    while i < len(cur) - 1:
+    t0 = time.time()
+    while i < len(cur) - 1 and time.time() - t0 < 45:
         cand = cur[:i] + cur[i + 1:]
         r, _ = check_case(ctx, exe, cand)
         if isinstance(r, Bad) and r.sig == sig:
